@@ -230,6 +230,7 @@ int vh_group_begin(const char *fmt, ...)
         x_resuming = 1;
     } else {
         if (SH->stop) return 0;
+        if (__atomic_load_n(&SH->claimed[x_group], __ATOMIC_ACQUIRE)) return 0;
         if (vh_deadline_passed()) { SH->deadline_hit = 1; return 0; }
         if (__atomic_exchange_n(&SH->claimed[x_group], 1, __ATOMIC_ACQ_REL)) return 0;
     }
